@@ -120,6 +120,39 @@ def check(run, replay):
             proj.append((c, m[:k], i[:k]))
     report(run, "CppCheckLogger::reportErr", proj, lambda c: {"case_fields": vlib.show(c)})
 
+    # ---- streams 5-9: how suppressions are given
+    parse_streams(run, model, vh, quick)
+
+
+def parse_streams(run, model, vh, quick):
+    """how suppressions are given: parseLine, toString, parseFile, parseComment, parseMultiSuppressComment"""
+    rng = run.rng
+    n = 4000 if quick else 120000
+
+    def simple(stream, cmd, cases, bucket):
+        cases = [list(c) for c in dict.fromkeys(tuple(c) for c in cases)]
+        diffs = vlib.correspond(run, stream, model, [vh, cmd], cases, tag=cmd,
+                                nontrivial=lambda c, m, i: tuple(c), bucket=bucket)
+        for c, m, i in sorted(diffs, key=lambda d: sum(len(x) for x in d[0]))[:2]:
+            import hashlib
+            key = stream + ":" + hashlib.sha1(vlib.enc_case(c).encode()).hexdigest()[:12]
+            run.violation(key, "%s(%s): the documented syntax (model) gives %s, the implementation %s" % (stream, vlib.show(c), vlib.show(m), vlib.show(i)),
+                          {"stream": stream, "input": vlib.show(c), "model": vlib.show(m), "impl": vlib.show(i), "case_line": vlib.enc_case(c),
+                           "how": "echo <case_line> | build/harness/vh_c23 " + cmd})
+
+    corpus_lines = [b"memleak:src/file1.cpp", b"uninitvar // suppress all uninitvar errors in all files", b"exceptNew:src/file1.cpp:12",
+                    b"a:c:/x/Makefile", b"a:b.c:", b"a:", b":b.c", b"a:b.c:1:2", b"a::1", b"a:b.c:1 # x", b"a\nsymbol=s", b""]
+    simple("parseLine", "pline", [[l] for l in corpus_lines] + [[G.gen_pline(rng)] for _ in range(n)],
+           lambda c, m, i: (m[0].decode() if m else "?") + ("," + m[1].decode("latin-1") if m and m[0] == b"E" else (",line" if m and len(m) > 3 and m[3] != b"-1" else "")))
+    simple("parseFile", "pfile", [[b""], [b"\n"], [b"a\r\nb\r\n"], [b"# c\n\n  // d\nmemleak:a.c\n"]] + [[G.gen_pfile(rng)] for _ in range(n // 2)],
+           lambda c, m, i: "ok%d" % ((len(m) - 1) // 4) if m and m[0] == b"1" else "err%d" % ((len(m) - 1) // 4))
+    simple("Suppression::parseComment", "pcomment", [[G.gen_pcomment(rng)] for _ in range(n)],
+           lambda c, m, i: "no" if m == [b"0"] else ("yes" + (",sym" if m[2] else "") + (",extra" if m[3] else "") + (",badattr" if m[4] == b"0" else "")))
+    simple("parseMultiSuppressComment", "pmulti", [[G.gen_pmulti(rng)] for _ in range(n)],
+           lambda c, m, i: ("ok" if m[0] == b"1" else "err") + "%d" % ((len(m) - 1) // 2))
+    ts = [[rng.choice(G.P_IDS), rng.choice(G.P_FILES), rng.choice([-1, -1, 0, 1, 7, 2147483647]), rng.choice([b"", b"foo", b"a b", b"x#y"])] for _ in range(n // 4)]
+    simple("Suppression::toString", "tostr", ts, lambda c, m, i: ("file" if c[1] else "nofile") + (",line" if c[2] != -1 else "") + (",sym" if c[3] else ""))
+
 
 def report(run, stream, diffs, describe):
     for c, m, i in sorted(diffs, key=lambda d: len(d[0]))[:2]:
